@@ -63,6 +63,10 @@ def _case(draw, worlds):
         'sched2': draw(st.lists(st.integers(0, 63), min_size=20, max_size=300)),
         'sched3': draw(st.lists(st.integers(0, 63), max_size=100)),
     }
+    if steps >= 2 and draw(st.integers(0, 3)) == 0:
+        # a checkpoint / resume in the middle (state dict pickled, fresh model and preconditioner, load_state_dict with the inverses
+        # recomputed) in every run alike: the resumed distributed run must still equal the resumed single-process run
+        case['load_at'] = draw(st.integers(1, steps - 1))
     return case
 
 
@@ -232,10 +236,12 @@ class C02(Prop):
 
         W = case['W']
         program = [{'op': 'train', 'seed': case['data_seed'] + t} for t in range(case['steps'])]
+        if case.get('load_at'):
+            program.insert(case['load_at'], {'op': 'load', 'compute_inverses': True, 'include_factors': True})
         cA, cB = _merge(case, 'A'), _merge(case, 'B')
         strat = lambda c: 'COMM' if c['k'] == W else 'MEM' if c['k'] == 1 else 'HYBRID'
         labels = {'W': W, 'strategyA': strat(cA), 'strategyB': strat(cB), 'method': case['method'], 'prediv': case['prediv'],
-                  'bucketed': cA['cap'] > 0, 'symmetry': cA['symmetry'], 'in_hook': case['in_hook'], 'accum': case['accum'],
+                  'resumed': bool(case.get('load_at')), 'bucketed': cA['cap'] > 0, 'symmetry': cA['symmetry'], 'in_hook': case['in_hook'], 'accum': case['accum'],
                   'intervals': 'changing' if any(isinstance(case['hp'][k], dict) for k in ('factor_update_steps', 'inv_update_steps'))
                   else f"{case['hp']['factor_update_steps']},{case['hp']['inv_update_steps']}"}
 
